@@ -107,6 +107,16 @@ def build_harness(log):
         log.append({"step": "go build harness", "rc": r.returncode, "out": r.stdout[-4000:]})
         if r.returncode != 0:
             return None
+        # the program under test itself (mode `cli` runs it in child processes)
+        gbin = os.path.join(bindir, "gleece")
+        if os.path.exists(gbin):
+            os.remove(gbin)
+        r2 = run(["go", "build", "-o", gbin, "."], cwd=REPO, env=goenv(), timeout=1200)
+        log.append({"step": "go build gleece", "rc": r2.returncode, "out": r2.stdout[-2000:]})
+        if r2.returncode == 0:
+            os.environ["VH_GLEECE_BIN"] = gbin
+        else:
+            os.environ.pop("VH_GLEECE_BIN", None)
         # private copy so that a concurrent check rebuilding the harness cannot pull it from under us
         return out
 
